@@ -15,6 +15,7 @@ rm -rf "$WT/_b"
 echo "== demo on changed tree"; (cd "$(dirname "$DEMO")" && timeout 1200 bash "$DEMO" "$WT" >/dev/null 2>&1 </dev/null); echo "demo_mut_rc=$?"
 rm -rf "$WT/_b"
 cd "$(dirname "$0")/.."
+export KV_EVID=$(mktemp -d /var/tmp/kv_evid.XXXXXX)
 for id in "$@"; do
   echo "== check $id"
   KV_REPO="$WT" timeout 3000 tools/check "$id" quick 2>&1 | grep -E "VIOLATION|KNOWN" | head -5; echo "check_${id}_rc=${PIPESTATUS[0]}"
